@@ -94,6 +94,9 @@ def run(P: Program, rep: Report):
             [list(t) for t in itertools.permutations(pool[:5], 3)][:: (2 if rep.tier == "thorough" else 7)]
     # merged forms that begin with an escape / a brace right after the separator
     lists += [["Ann Author", "Jean \\'Elan"], ["Jean \\'Elan", "Ann Author", "Jean \\'Elan"], ["Ann Author", "Jean {\\'E}lan", "de la Cruz, Maria"]]
+    # a name may contain the bare word `and` (tied with `~`, or as its very first word): merged, it must not read as a separator
+    lists += [["Drumpf, Harry~and~Fellowes"], ["Drumpf, Harry~and~Fellowes", "Ann Author"], ["and Smith", "Bob Jones"], ["Ann Author", "and Smith"],
+              ["Harry~And Fellowes Drumpf", "Ann Author"], ["Ann Author", "Smith,~and"]]
     # words that begin / end with a character str.strip() removes but which is an ordinary character for BibTeX and for the tokenisers
     lists += [["Bob \u00a0Smith"], ["Ann Author", "Bob \u00a0Smith"], ["Bob\x0c Smith", "Ann Author"], ["Bob Smith\u2009", "Ann Author"]]
     bad2 = {}
